@@ -380,12 +380,18 @@ def ellipse(cx):
     cx.need(len(full) == 1, 'gate.ellipse: expected one full-output return')
     fields = output_ctor(fn, full[0].value)
     cn = kwarg(full[0].value, 'contour', fields.index('contour'))
-    cx.need(isinstance(cn, ast.Name), 'gate.ellipse: contour field is not a name')
-    cdefs = fn.reaching_values(cn.id, full[0])
-    cx.need(len(cdefs) == 1 and isinstance(cdefs[0][1], ast.List) and len(cdefs[0][1].elts) == 1
-            and isinstance(cdefs[0][1].elts[0], ast.Name), 'gate.ellipse: contour is not a one-element list of a name')
-    ci = cdefs[0][1].elts[0].id
-    cidefs = fn.reaching_values(ci, cdefs[0][0].ast)
+    if isinstance(cn, ast.List) and len(cn.elts) == 1 and isinstance(cn.elts[0], ast.Name):
+        # the one-element list written in place
+        ci = cn.elts[0].id
+        cidefs = fn.reaching_values(ci, full[0])
+        cdefs = None
+    else:
+        cx.need(isinstance(cn, ast.Name), 'gate.ellipse: contour field is not a name')
+        cdefs = fn.reaching_values(cn.id, full[0])
+        cx.need(len(cdefs) == 1 and isinstance(cdefs[0][1], ast.List) and len(cdefs[0][1].elts) == 1
+                and isinstance(cdefs[0][1].elts[0], ast.Name), 'gate.ellipse: contour is not a one-element list of a name')
+        ci = cdefs[0][1].elts[0].id
+        cidefs = fn.reaching_values(ci, cdefs[0][0].ast)
     kinds = []
     for d, v in cidefs:
         if v is None:
@@ -418,7 +424,7 @@ def ellipse(cx):
             kinds.append('curve' if okc else 'curve-mismatch: ' + sym.show(code))
     ok = sorted(kinds) == ['curve', 'exp']
     fn.ob('GATEPRED', 'contour traces the same ellipse (same centre, axes, rotation), back in data space iff log',
-          ok, cdefs[0][0].ast, detail='' if ok else 'contour definitions: %s' % kinds, key='contour')
+          ok, cdefs[0][0].ast if cdefs else full[0], detail='' if ok else 'contour definitions: %s' % kinds, key='contour')
     gateshape(cx, fn)
     return fn
 
